@@ -78,6 +78,9 @@ def run(ctx):
     ones = [m for m in prims.mutations(si) if m.kind == 'assign' and show(m.path).endswith('.slow_start_ack_value')]
     vals = sorted(show(m.rv) for m in ones)
     ctx.ob(vals == ['1', '1'], 'members of both ack tables get the value 1; a mark is never cleared while its operation exists (an operation interrupted earlier and still unresolved - e.g. after a connection attempt that failed before CONNACK - stays counted: defect 16) (%s)' % vals, 'ss|values', loc=si.loc())
+    gl = [[g for g in prims.guard_strs_plain(si, m.bb) if not g.startswith('Iterator::next(')] for m in ones]
+    ctx.ob(bool(gl) and all(g == ['(self.config.post_reconnect_queue_drain_policy == PostReconnectQueueDrainPolicy::OneAtATime{})'] for g in gl),
+           'the marks are set exactly when the one-at-a-time policy is configured (no other condition, not the opposite one) (%s)' % gl, 'ss|mark-condition', loc=si.loc())
     zw = []
     for v_ in F.fns_in(P):
         for m_ in prims.mutations(v_):
@@ -128,3 +131,8 @@ def run(ctx):
         okp = ra_ == {'True'} and prims.rets_after(hp, [r'^HashMap::is_empty\(self\.pending_publish_operations\)$', r'^!HashMap::is_empty\(self\.pending_non_publish_operations\)$']) == {'True'} and \
             prims.rets_after(hp, [r'^HashMap::is_empty\(self\.pending_publish_operations\)$', r'^HashMap::is_empty\(self\.pending_non_publish_operations\)$']) == {'False'}
     ctx.ob(okp, 'has_pending_ack is true exactly when either ack table is non-empty (unacked publishes non-empty -> %s; else -> %s)' % (sorted(ra_ or []), sorted(rb_ or [])), 'pred|pendingack-table', loc=hp.loc())
+    # ---- added after the mutation sweep: the configured values this property starts from reach the options (builder setters)
+    from . import shared as _sh
+    _ns = _sh.builder_setters(ctx, lambda b, m: b == 'MqttClientOptionsBuilder' and m == 'with_post_reconnect_queue_drain_policy', 'R-C09-4', 'the configured drain policy is the one in force')
+    if ctx.config == 'all':
+        ctx.floor(_ns, 1, 'builder setters this property depends on')
